@@ -34,6 +34,13 @@ def check(ctx, cfg):
     r9(ctx, cfg)
     r10(ctx, cfg)
     r11(ctx, cfg)
+    r_overlay(ctx, cfg)
+
+
+def r_overlay(ctx, cfg):
+    """premise shared with C06 (the transaction overlay is faithful), under this property's id: the next instance id is the number of contract records counted through the transaction's merged range, and code / contract records written earlier in the transaction are read back through it"""
+    from rules import C06
+    C06.overlay_premise(ctx, cfg, "C11.R12")
 
 
 def r8(ctx, cfg):
@@ -269,6 +276,34 @@ def r4(ctx, cfg):
         ret = P.ret(f)
         ok = contains(ret, lambda x: x[0] == "agg" and x[1].endswith("Result::Ok") and same_origin(x[2][0][1], addr))
         ctx.ob(R, key, "returns-registered-address", ok, "register_contract returns another address than it registered", fn=f, sample="Ok(addr)")
+
+
+def record_io(ctx, cfg, R):
+    """the registry record is written and read as it is: `save_contract(storage, address, contract)` saves exactly the record it
+    is given under exactly that address, and `contract_data(storage, address)` is that entry.  Whoever changes one field of a
+    record and saves it (a new admin, the code id of a migration) relies on both."""
+    F, P = cfg.facts, cfg.prov
+    key = W + "save_contract"
+    f = ctx.need_fn(R, key)
+    if f is not None:
+        sv = q.calls(f, "cw_storage_plus::Map::save")
+        ok = len(sv) == 1
+        if ok:
+            a = P.call_args(f, sv[0][1], sv[0][0])
+            ok = peel(a[0]) == ("item", "wasm::CONTRACTS") and is_param(a[2], "address") and is_param(a[3], "contract")
+        ctx.ob(R, key, "CONTRACTS[address]=contract", ok, "save_contract does not save the record under the address", fn=f,
+               sample="CONTRACTS.save(.., address, contract)")
+    cd = ctx.need_fn(R, "<wasm::WasmKeeper as wasm::Wasm>::contract_data")
+    if cd is not None:
+        def is_load(x):
+            if not (x[0] == "call" and x[1] in ("cw_storage_plus::Map::load", "cw_storage_plus::Map::may_load") and peel(x[2][0]) == ("item", "wasm::CONTRACTS")):
+                return False
+            st = peel(x[2][1])
+            return st[0] == "call" and st[1] == "prefixed_storage::prefixed_read" and is_param(st[2][0], "storage") and peel(st[2][1]) == ("item", "wasm::NAMESPACE_WASM") and \
+                is_param(x[2][2], "address")
+        vals = q.success_payloads(P, cd)
+        ctx.ob(R, cd.key, "contract_data-is-the-registry-entry-of-that-address", bool(vals) and all(contains(v, is_load) for v in vals),
+               "contract_data answers %s" % [fmt(peel(v))[:100] for v in vals], fn=cd, sample="CONTRACTS.load(prefixed_read(storage, NAMESPACE_WASM), address)")
 
 
 def r5(ctx, cfg):
